@@ -105,7 +105,8 @@ class Case:
         self.fwd = int(px[0])
         self.rhost = unopt(px[1]) if len(px) > 1 else None
         self.head = C.unhx(t[16])
-        self.bodytok, self.sched = t[17], t[18].split(",")
+        self.bodytok, self.sched = t[17], [x for x in t[18].split(",") if not x.startswith("s")]
+        self.reader = [x for x in t[18].split(",") if x.startswith("s")]     # cgibody: slow reader "s<late>.<rd>"
 
     def body(self):
         if self.bodytok[0] == "k":
@@ -968,7 +969,8 @@ def classify(line, out):
     if t[0] == "cgibody":
         c = Case(line.split(" P ")[0])
         delivered, fixed, done = schedule(c)
-        return "cgibody:%s:fl%x:b%s:seg%d" % (res[:13], fl & (F_TEMP | F_STREAMING), size_class(delivered), min(len(c.sched), 4))
+        return "cgibody:%s:fl%x:b%s:seg%d%s" % (res[:13], fl & (F_TEMP | F_STREAMING), size_class(delivered),
+                                                min(len(c.sched), 4), ":slow" if c.reader else "")
     kind = res.split(" ")[0]
     key = "%s:%s:fl%x" % (t[0], kind if not kind.startswith("st=") else kind, fl & (F_AUTH | F_CHECKLOCAL | F_H2EXT | F_UPGRADE | F_TEMP | F_STREAMING | F_HTTP10))
     if kind == "ok":
@@ -1208,6 +1210,37 @@ def gen_cases(ctx):
             cfg["fl"] |= stream_flag(rng)
         # (not streaming: the script is started once the body is complete, so no partial deliveries)
         cfg["sched"] = "c%d" % n if chunked else rand_sched(rng, n, bool(cfg["fl"] & F_STREAMING))
+        lines.append(mkline("cgibody", head, **fix_cfg(cfg, "cgi")))
+    # 5. mod_cgi with back-pressure: bodies well beyond the 64 KiB pipe, streamed (the script runs while the body
+    #    arrives) or collected first, in memory or temp-file chunks, and a script that starts reading late and
+    #    reads slowly: write attempts meet a completely full pipe (EAGAIN) at chunk / 16 KiB block boundaries
+    bsizes = [65536, 65537, 81920, 98304, 131072, 200000, 262144, 300000, 400000, 524288 + 3]
+    for i in range(160 if q else 1500):
+        n = bsizes[i % len(bsizes)]
+        cfg = gen_cfg(rng, "cgi")
+        chunked = rng.random() < 0.15
+        head = gen_head(rng, body_len=None if chunked else n, chunked=chunked, v11=chunked)
+        cfg["body"] = body_tok(rng, n)
+        cfg["fl"] &= ~(F_H2EXT | F_STREAMING | F_TEMP)
+        if rng.random() < 0.5:
+            cfg["fl"] |= F_TEMP
+        if not chunked and i % 5 != 4:
+            cfg["fl"] |= F_STREAM if i % 2 else F_STREAM2
+        streaming = bool(cfg["fl"] & F_STREAMING)
+        if chunked or not streaming:
+            sched = "c%d" % n if chunked else str(n)
+        else:
+            k = rng.random()
+            if k < 0.3:
+                sched = str(n)                                     # whole body there before the first write
+            elif k < 0.6:
+                step = rng.choice([16384, 32768, 65536, 65536, 100000])
+                sched = ",".join(str(min(step, n - o)) for o in range(0, n, step))
+            else:
+                sched = rand_sched(rng, n, rng.random() < 0.2)
+        late = rng.choice([0, 1, 2, 3, 5, 8, 20])
+        rd = rng.choice([0, 1024, 4096, 16384, 16384, 65536, 70000])
+        cfg["sched"] = sched + ",s%d.%d" % (late, rd)
         lines.append(mkline("cgibody", head, **fix_cfg(cfg, "cgi")))
     return lines
 
